@@ -259,6 +259,7 @@ def run_unit_verus(u, repo):
                 obligations[lab] = {"label": lab, "props": u.get("properties", []), "kind": "prelude", "line": prim_line, "text": "", "status": "failed"}
     if compile_errs:
         res["status"] = "undecided"
+        res["hard_undecided"] = True
         res["notes"].append("Verus rejected the generated file (construct outside the supported subset, or a type the prelude does not model): " + "; ".join(d.get("message", "")[:300] for d in compile_errs[:5]))
     if undecided:
         res["status"] = "undecided"
@@ -411,9 +412,12 @@ def main():
                 if kf and not unexplained:
                     entry["status"] = "known-finding"
                     known_hits.append((kf[0], fs))
-                elif r["status"] == "undecided":
+                elif r.get("hard_undecided"):
+                    # the generated file did not even type-check: reported failures are not trustworthy
                     entry["status"] = "undecided"
                 else:
+                    # a failed obligation is a failed obligation, even if the unit is also flagged
+                    # (e.g. a vacuity probe became unreachable because of the very same change)
                     violations.append((r, o, unexplained or fs))
                     all_obl.append(entry)
             else:
